@@ -496,6 +496,8 @@ func TestReplay(t *testing.T) {
 		v = Replay(&c, r.Property)
 	case "table":
 		v = replayTable(r.Case)
+	case "glue":
+		v = replayGlue(r.Case)
 	case "between":
 		var c betweenCase
 		json.Unmarshal(r.Case, &c)
@@ -508,6 +510,13 @@ func TestReplay(t *testing.T) {
 		}
 		for i := 0; i < 3000 && v == nil; i++ {
 			v = runRace(&c)
+		}
+		for i := 0; i < 300 && v == nil; i++ {
+			for _, layer := range []string{"table", "match"} {
+				if v == nil {
+					v = runGlueCase(&glueCase{Layer: layer, Max: 4, Ops: []glueOp{{K: "join", S: 1}}, Race: []int{-1, -1, 0, 1, -1, 2, -1, 3, -1, -1, 0, 1}}, map[string]bool{})
+				}
+			}
 		}
 	default:
 		t.Fatalf("unknown replay kind %q", r.Kind)
